@@ -15,6 +15,8 @@ pub enum Event {
     Normal(Vec<u8>),
     /// The number of leaves selected by `ImmutableLeafs::new`.
     Batch(usize),
+    /// An item drawn by `ImmutableSubsetLeafs::choose` or `choose_two` (the sample of the split search).
+    Chosen(u32),
     /// An event pushed by the harness itself (e.g. a draw of its random number generator),
     /// as a kind chosen by the harness and a value.
     Ext(u8, u64),
